@@ -16,7 +16,7 @@ ID = 'C20'
 LEVEL = 'exploration'
 RUN_TIMEOUT = 120.0
 CHUNK = 20
-TIERS = {'quick': dict(runs=2600, budget_s=75), 'thorough': dict(runs=60000, budget_s=1500)}
+TIERS = {'quick': dict(runs=2600, budget_s=240), 'thorough': dict(runs=60000, budget_s=1500)}
 RULE = ('seeded workloads of 2-3 threads x 1-3 pformat calls over a fixed corpus (first use of '
         'lazily registered stdlib/harness types, direct/predicate/unregistered classes, struct '
         'sequences, long strings, commented and cyclic shared values), each run in a pristine fork '
